@@ -62,10 +62,12 @@ def configs(tier):
         out.append((cfg_of(3, 2, False, 100, "E0", "tiny"), 2))
     else:
         for n in (2, 3):
-            for loops in (-1, 1, 2, 3):
+            for loops in (-1, 1, 2, 3) if n == 2 else (-1, 2):
                 for cache in (False, n - 1):
                     for dur0, pad0 in ((100, "E0"), ("DYN", "Arel")):
                         out.append((cfg_of(n, loops, cache, dur0, pad0, "wide"), 0))
+        for loops in (1, 3):
+            out.append((cfg_of(3, loops, False, 100, "E0", "full"), 0))
         for loops in (-1, 2):
             out.append((cfg_of(4, loops, False, 100, "E0", "full"), 0))
         for loops in (-1, 1, 2, 3):
@@ -76,11 +78,11 @@ def configs(tier):
             for cache, prof in ((True, "tiny"), (3, "dur"), (4, "args"), (True, "size"), (3, "pad")):
                 out.append((cfg_of(3, loops, cache, 100, "E0", prof), 0))
         out.append((cfg_of(4, 2, True, 100, "E0", "dur"), 0))
-        for n in ("I3", "I4"):
-            for loops, cache in ((1, False), (2, True)):
-                for dur0 in (100, "DYN"):
-                    out.append((cfg_of(n, loops, cache, dur0, "E0" if dur0 == 100 else "Arel", "full"), 0))
-        out.append((cfg_of("I3", 1, False, 100, "E0", "wide"), 0))
+        for loops, cache in ((1, False), (2, True)):
+            for dur0 in (100, "DYN"):
+                out.append((cfg_of("I3", loops, cache, dur0, "E0" if dur0 == 100 else "Arel", "full"), 0))
+        out.append((cfg_of("I4", 1, False, 100, "E0", "small"), 0))
+        out.append((cfg_of("I4", 2, True, "DYN", "Arel", "small"), 0))
         # unmerged cross-checks: depth 4 on the reduced alphabet, depth 3 on a richer one
         out.append((cfg_of(2, 2, True, 100, "E0", "tiny"), 4))
         out.append((cfg_of("I3", 1, False, 100, "E0", "tiny"), 4))
